@@ -21,6 +21,14 @@ class _Return(Exception):
         self.v = v
 
 
+class _Break(Exception):
+    pass
+
+
+class _Continue(Exception):
+    pass
+
+
 class Ref(object):
     """an lvalue: element of a list, a local, or a field of the model"""
     def __init__(self, box, key):
@@ -90,6 +98,8 @@ class Machine(object):
             if ck == 'ToVoid':
                 self.ev(n['ch'][0])
                 return None
+            if ck == 'ArrayToPointerDecay':
+                return self.ev(n['ch'][0])
             if ck in ('NoOp', 'IntegralCast', 'IntegralToBoolean', None):
                 v = self.ev(n['ch'][0])
                 if ck == 'NoOp' and isinstance(v, (Ref, list)):
@@ -108,6 +118,9 @@ class Machine(object):
                 return Ref(self.locals, d)
             if 'v' in n:
                 return n['v']
+            if n.get('rk') == 'global' and n.get('qn') in self.fields:
+                g = self.fields[n['qn']]
+                return g if isinstance(g, list) else Ref(self.fields, n['qn'])
             if n.get('rk') == 'local':
                 # a local of the enclosing function that is defined once, by an initialiser whose operands are unchanged
                 src = fn.def_expr(x)
@@ -121,6 +134,13 @@ class Machine(object):
             if k2 in self.fields:
                 return Ref(self.fields, k2)
             raise Unknown('member %s' % n.get('name'))
+        if k == 'ArraySubscriptExpr' and n.get('base') is not None and n.get('idx') is not None:
+            base = self.ev(n['base'])
+            if isinstance(base, Ref):
+                base = base.get()
+            if not isinstance(base, list):
+                raise Unknown('subscripted object')
+            return Ref(base, self.rv(n['idx']))
         if k == 'ConditionalOperator':
             return self.ev(n['then'] if self.rv(n['cond']) else n['else'])
         if k == 'UnaryOperator':
@@ -206,6 +226,9 @@ class Machine(object):
                     sub.resolve, sub.depth = self.resolve, self.depth + 1
                     return sub.call()
             raise Unknown('call %s' % n.get('callee'))
+        if k == 'CallExpr' and getattr(self, 'free', None) and n.get('callee') in self.free:
+            # a free function the rule supplies a model for (justified by the rule that decides that function)
+            return trunc(self.free[n['callee']](*[self.rv(a) for a in n.get('args', [])]), n)
         if k == 'CallExpr' and (n.get('callee') or '').split('<')[0] in ('std::min', 'std::max') and len(n.get('args', [])) == 2:
             a, b = self.rv(n['args'][0]), self.rv(n['args'][1])
             return min(a, b) if 'min' in n['callee'].split('<')[0] else max(a, b)
@@ -292,7 +315,45 @@ class Machine(object):
             raise _Return(v)
         elif k == 'WhileStmt':
             while self.rv(n['cond']):
-                self.st(n['body'])
+                try:
+                    self.st(n['body'])
+                except _Break:
+                    break
+                except _Continue:
+                    pass
+        elif k == 'ForStmt':
+            if n.get('init') is not None:
+                self.st(n['init'])
+            while n.get('cond') is None or self.rv(n['cond']):
+                try:
+                    if n.get('body') is not None:
+                        self.st(n['body'])
+                except _Break:
+                    break
+                except _Continue:
+                    pass
+                if n.get('inc') is not None:
+                    self.ev(n['inc'])
+                self.steps -= 1
+                if self.steps < 0:
+                    raise Unknown('step limit')
+        elif k == 'DoStmt':
+            while True:
+                try:
+                    self.st(n['body'])
+                except _Break:
+                    break
+                except _Continue:
+                    pass
+                if not self.rv(n['cond']):
+                    break
+                self.steps -= 1
+                if self.steps < 0:
+                    raise Unknown('step limit')
+        elif k == 'BreakStmt':
+            raise _Break()
+        elif k == 'ContinueStmt':
+            raise _Continue()
         elif k == 'CXXForRangeStmt':
             rng = self.ev(n['range'])
             if not isinstance(rng, list):
@@ -307,14 +368,19 @@ class Machine(object):
             i = 0
             while i < len(rng):
                 self.locals[n['loopvar']] = Ref(rng, i) if byref else rng[i]
-                self.st(n['body'])
+                try:
+                    self.st(n['body'])
+                except _Break:
+                    break
+                except _Continue:
+                    pass
                 i += 1
                 self.steps -= 1
                 if self.steps < 0:
                     raise Unknown('step limit')
         elif k == 'NullStmt':
             pass
-        elif k in ('ForStmt', 'DoStmt', 'SwitchStmt', 'CXXTryStmt', 'GotoStmt', 'BreakStmt', 'ContinueStmt'):
+        elif k in ('SwitchStmt', 'CXXTryStmt', 'GotoStmt'):
             raise Unknown('statement %s' % k)
         else:
             self.ev(x)
